@@ -1834,7 +1834,8 @@ class V:
                             self.mutated.add(k_)
                         self.sh.cells.append(CellRec(root, comp, v, newroot, st, tuple(self.sh.loop_stack)))
                         for k_, x_ in list(self.env.items()):
-                            if k_ != b.id and k_ not in holders and israt(x_) and find_atoms(x_, lambda n_, a2, r_=fkey(root): n_ == "idx" and fkey(a2[0]) == r_):
+                            if k_ != b.id and k_ not in holders and israt(x_) and holders[0] in self.view_of.get(k_, holders) \
+                                    and find_atoms(x_, lambda n_, a2, r_=fkey(root): n_ == "idx" and fkey(a2[0]) == r_):
                                 self.env[k_] = Unknown(f"a view of an array written through the view {b.id}")
                         self.env[b.id] = self.mk_idx(newroot, a_[1])
                         self.mutated.add(b.id)
